@@ -29,6 +29,10 @@ const (
 	OpCompact  = "compact"  // ir.CompactUnused on a task-private module (in place)
 	OpInline   = "inline"   // ir.InlineUserFunctions on a task-private module (in place)
 	OpScribble = "scribble" // caller overwrites a result it was handed earlier
+	// OpResolveInPlace: ir.ProcessOverrides directly on a task-private module
+	// (the caller's own copy). A FAILED call must leave that module as it was:
+	// the caller is entitled to retry with a complete value map.
+	OpResolveInPlace = "resolve_inplace"
 )
 
 // Ref names an operation by position.
